@@ -78,7 +78,7 @@ def plan(tier):
     kname = 'C09'
     inst = [('i16', -8, 'i8', 0), ('i32', -16, 'i16', -4), ('u16', -4, 'u8', 0), ('i8', -4, 'i8', -1)]
     if thorough:
-        inst += [('i32', -31, 'i8', 0), ('i64', -40, 'i32', -8), ('u32', -16, 'u32', 0), ('i32', -1, 'i32', 0)]
+        inst += [('i32', -20, 'i16', 0), ('u32', -16, 'u32', 0), ('i32', -1, 'i32', 0)]
     P = (r'^cnl::custom_operator<cnl::_impl::convert_op, cnl::op_value<cnl::_impl::wrapper<[a-z_0-9 ]+, cnl::power<-?\d+, 2> >, cnl::_impl::native_tag>, '
          r'cnl::op_value<cnl::_impl::wrapper<[a-z_0-9 ]+, cnl::power<-?\d+, 2> >, cnl::\w+_rounding_tag> >::operator\(\)\(')
     for mode, tg in TAGS.items():
